@@ -2,9 +2,12 @@
 From Coq Require Import ZArith Reals Floats Lra Lia Bool.
 From Flocq Require Import Core IEEE754.BinarySingleNaN IEEE754.PrimFloat.
 
-Definition F := PrimFloat.float.
-Definition flt (a b : F) : bool := PrimFloat.ltb a b.
-Definition fle (a b : F) : bool := PrimFloat.leb a b.
+(* F, flt, fle are the definitions of Numerics/FloatBits.v (same bodies as in the original
+   stand-alone development: PrimFloat.float, PrimFloat.ltb, PrimFloat.leb) *)
+From OX Require Numerics.FloatBits.
+Notation F := FloatBits.F.
+Notation flt := FloatBits.flt.
+Notation fle := FloatBits.fle.
 Definition fnan (a : F) : bool := PrimFloat.is_nan a.
 Definition fadd (a b : F) : F := PrimFloat.add a b.
 Definition fzero : F := PrimFloat.zero.
